@@ -148,7 +148,7 @@ func genCont(r *rand.Rand, label string, thorough bool) vh.Case {
 	cfg := genCfg(r)
 	// round-8 classes (emitted after all the others, from fixed sub-seeds): the same containers with unusual arguments
 	//   nilmap   map histories in which about half of the Sets store a nil value (written -1 in the Coq term)
-	//   maxlru / maxtiny   LRUs built with the "no limit" capacities MaxInt64 - d, d in {0, 1, n-1, n, n+1}, n >= 2 shards
+	//   maxlru / maxtiny   LRUs built with the "no limit" capacities MaxInt64 - d, d in {0, 1, n-1, n, n+1}, any shard count (a third on ONE shard)
 	kind, nilVals, maxCap := label, false, false
 	switch label {
 	case "nilmap":
@@ -158,9 +158,12 @@ func genCont(r *rand.Rand, label string, thorough bool) vh.Case {
 	case "maxtiny":
 		kind, maxCap = "tiny", true
 	}
-	if maxCap && cfg.n < 2 {
-		// one shard: capacity/1 + 1 itself leaves int64 for MaxInt64 (the model's per-shard capacity is an unbounded integer)
-		cfg.n = uint64(2 + r.Intn(4))
+	if maxCap && r.Intn(3) == 0 {
+		// one shard: capacity/1 + 1 leaves int64 for MaxInt64; since /repo's fix a2abdb2 the per-shard capacity saturates
+		// at MaxInt64 (before it, it wrapped to MinInt64 and the first Set panicked: KNOWN_FINDINGS, defect 22); the model's
+		// per-shard capacity is the unbounded integer, which no history can tell from MaxInt64
+		cfg.n = 1
+		cfg.deflt = false
 		cfg.ropts = []remap.Option{remap.WithPrime(cfg.n)}
 	}
 	// half of the LRU histories: few shards, a per-shard capacity of 2..4 entries, unit sizes, many keys per shard, so
@@ -390,7 +393,10 @@ func runLRU(r *rand.Rand, cfg contCfg, rm *remap.ReMap, isTiny bool, capacity in
 		sh = bigLRU{cache.NeWideLRUCache(capacity, cfg.ropts...)}
 	}
 	un = single(capacity)
-	pSize := capacity/int64(cfg.n) + 1 // "capacity applied per shard"
+	pSize := capacity / int64(cfg.n) // "capacity applied per shard": capacity/n + 1 as an integer, not as a wrapped int64
+	if pSize < math.MaxInt64 {
+		pSize++
+	}
 	refs := map[int]lruLike{}
 	pool := genPool(r, cfg.xh, cfg.n, 3+r.Intn(8), -1)
 	if pressure {
